@@ -26,7 +26,7 @@ def path_args(argv):
         if skip:
             skip = False
             continue
-        if a == "-f":
+        if a in ("-f", "-R"):
             skip = True
             continue
         if a.startswith("-"):
@@ -69,7 +69,7 @@ class C04(Engine):
     prop = "C04"
     name = "cli-sim"
     level = "exploration"
-    expected_kinds = {"mode_explicit", "mode_dir", "mode_cwd", "listing_perm", "fatal_mid_run", "eio", "eacces", "enoent", "gitignore", "gitignore_dropped_a_file"}
+    expected_kinds = {"mode_explicit", "mode_dir", "mode_cwd", "listing_perm", "fatal_mid_run", "eio", "eacces", "enoent", "gitignore", "gitignore_dropped_a_file", "value_option_before_paths", "strict_stdout", "strict_stdout_undecodable_source"}
     rule_text = ("All class sequences of length 0..4 over {clean, notice-only, erroneous, fatal} (341) x 3 modes (explicit paths, one "
                  "directory argument, no argument/cwd), each instantiated with k seeded draws of concrete files (class membership "
                  "measured with R-alone); lengths 5..12 sampled; every sampled multiset in up to 24 orders; directory modes get their "
@@ -83,7 +83,7 @@ class C04(Engine):
 
     def setup(self):
         q = self.tier == "quick"
-        self.pools = Pools(self.seed, n_gen=10 if q else 60, n_viol=10 if q else 60, n_cut=0, corpus_limit=6 if q else 40, tag="c04")
+        self.pools = Pools(self.seed, n_gen=10 if q else 60, n_viol=10 if q else 60, n_cut=0, corpus_limit=6 if q else 40, tag="c04", enc_family=True)
         self.pools.register()
 
     def prepare(self):
@@ -98,8 +98,13 @@ class C04(Engine):
     def instantiate(self, rng, seq, mode, idx, io_fault=None, git=True):
         P = self.pools
         fids = []
+        g = core.derive_rng("c04.git", self.seed, idx)      # the stream of the environment choices (stdout, git, options)
+        strict = g.random() < 0.2
         for c in seq:
             cand = self.members[c]
+            if strict and g.random() < 0.5:
+                # with a strict stdout, prefer the files whose bytes are not UTF-8 (legacy-encoding family)
+                cand = [f for f in cand if P.files[f]["name"].startswith("enc_")] or cand
             if fids and rng.random() < 0.3:
                 # name-keyed state would show between two different files of one name (or one stem): prefer such a member
                 names = set(P.files[f]["name"] for f in fids)
@@ -147,7 +152,6 @@ class C04(Engine):
         elif k < 0.5:
             op["argv"] = ["-o"] + op["argv"]
         sc = {"kind": "run", "mode": mode, "seq": list(seq), "tree": tree, "selected": list(zip(paths, fids)), "ops": [op]}
-        g = core.derive_rng("c04.git", self.seed, idx)      # its own stream: the runs without the option stay what they were
         if git and not io_fault and paths and g.random() < 0.22:
             # --use-gitignore (stub git, S4): the files git ignores are not part of the run; everything else as M-run says
             rels = sorted(set(("src/" if mode == "cwd" else "") + os.path.normpath(p) for p in paths))
@@ -165,6 +169,16 @@ class C04(Engine):
             op["argv"] = ["--use-gitignore"] + op["argv"]
             op["git"] = {"rules": rules, "fault": None}
             sc["gitignore"] = True
+        if g.random() < 0.12:
+            # an option that takes a value, right before the paths (a compatibility word no rule knows: it changes no diagnostic,
+            # C16 checks that; what matters here is that the paths after it are still the paths)
+            k3 = len(op["argv"]) - len(path_args(op["argv"]))
+            op["argv"] = op["argv"][:k3] + ["-R", "NoSuchCompatWord"] + op["argv"][k3:]
+            sc["value_option_before_paths"] = True
+        if strict:
+            # S6: standard output as it is under an ordinary UTF-8 locale: a stream that refuses what is not Unicode text
+            op["stdout"] = "strict"
+            sc["strict_stdout"] = True
         if io_fault:
             kind, call = io_fault
             op["faults"] = [{"seam": "open", "call": call, "kind": kind}]
@@ -377,6 +391,12 @@ class C04(Engine):
     def observe(self, idx, sc, r):
         o = r["ops"][0]
         self.fire("mode_" + sc["mode"])
+        if sc.get("strict_stdout"):
+            self.fire("strict_stdout")
+            if any(self.pools.files.get(fid, {}).get("name", "").startswith("enc_") for _, fid in sc.get("selected", [])):
+                self.fire("strict_stdout_undecodable_source")
+        if sc.get("value_option_before_paths"):
+            self.fire("value_option_before_paths")
         if "--use-gitignore" in sc["ops"][0]["argv"]:
             self.fire("gitignore")
             rules = core.git_rules(sc["ops"][0].get("git") or {})
@@ -443,7 +463,7 @@ class C04(Engine):
                     if skip:
                         skip = False
                         continue
-                    if a == "-f":
+                    if a in ("-f", "-R"):
                         skip = True
                         continue
                     if a.startswith("-"):
@@ -475,7 +495,7 @@ class C04(Engine):
                 c = copy.deepcopy(sc)
                 del c["ops"][0]["argv"][j]
                 yield c
-            elif a == "-f":
+            elif a in ("-f", "-R"):
                 c = copy.deepcopy(sc)
                 del c["ops"][0]["argv"][j:j + 2]
                 yield c
